@@ -2,6 +2,8 @@
 from framework import Failure
 import tiers as T
 import tierops
+import tgops
+import dispatch
 
 RULE = ("exhaustive family on the dyadic grid: tiers of <=3 disjoint intervals with integer boundaries in [0,6] x s on the "
         "half-integer grid in [0,6] x d in {0.5,1,2.5} x 4 collision modes, each also composed with "
@@ -14,9 +16,9 @@ MODES = ["stretch", "split", "no_change", "error"]
 
 case_json = lambda c: c
 case_from_json = lambda j: j
-encode = tierops.encode
-impl = tierops.impl
-render = tierops.render
+encode = dispatch.encode
+impl = dispatch.impl
+render = dispatch.render
 
 
 def wants_x(c):
@@ -48,6 +50,8 @@ def expected(c):
 
 
 def oracle(c, r):
+    if dispatch.is_tg(c):
+        return tgops.oracle(c, r)
     s, d, t = c["s"], c["d"], c["tier"]
     op = c["op"]
     sig = {"op": op, "mode": c.get("mode")}
@@ -87,6 +91,8 @@ def oracle(c, r):
 
 
 def tags(c, r):
+    if dispatch.is_tg(c):
+        return [c['op'], 'grid' if c.get('grid') else 'dec'] + (['err:' + r[1]] if r[0] == 'err' else [])
     out = [c["op"], "mode:" + str(c.get("mode")), "grid" if c.get("grid") else "dec"]
     if r[0] == "err":
         out.append("err:" + r[1])
@@ -96,6 +102,8 @@ def tags(c, r):
 
 
 def nontrivial(c, r):
+    if dispatch.is_tg(c):
+        return any(t['es'] for t in c['tg']['tiers'])
     return any(e[-2] > c["s"] for e in c["tier"]["es"])
 
 
@@ -119,6 +127,26 @@ def corpus():
 
 
 def gen(rnd, tier):
+    yield from gen_tier_level(rnd, tier)
+    for i in range(20000 if tier == 'thorough' else 1500):
+        domain = rnd.choice(['dec', 'dec', 'grid64'])
+        c = tg_case(rnd, domain)
+        c['grid'] = domain != 'dec'
+        yield c
+
+
+def tg_case(rnd, domain):
+    g = tgops.gen_tg(rnd, domain, valid=rnd.random() < 0.8)
+    pool = sorted({x for t in g['tiers'] for x in T.boundary_pool(t, rnd, domain)})
+    pool = [x for x in pool if 0 <= x <= g['hi']]
+    a, b = rnd.choice(pool), rnd.choice(pool)
+    if a > b and rnd.random() < 0.95:
+        a, b = b, a
+    d = rnd.choice([0.25, 1.0, 2.5]) if domain != 'dec' else round(rnd.uniform(0.01, 3), 2)
+    return {'op': 'tg_space', 'tg': g, 's': a, 'd': d, 'mode': rnd.choice(MODES)}
+
+
+def gen_tier_level(rnd, tier):
     if tier == "thorough":
         for c in family_cases(3):
             yield c
@@ -142,9 +170,7 @@ def gen(rnd, tier):
         yield {"op": op, "tier": t, "s": s, "d": d, "mode": rnd.choice(MODES), "grid": domain != "dec"}
 
 
-def shrink(c):
-    for s in T.shrink_spec(c["tier"]):
-        yield dict(c, tier=s)
+shrink = dispatch.shrink
 
 
 def perturb(c, rnd):
